@@ -674,7 +674,7 @@ func gen(g *fw.Gen) {
 		}
 	}
 	// sequences: every group count x every position of the invalid group x every remainder
-	reps := g.Pick(15, 350)
+	reps := g.Pick(15, 1000)
 	for rep := 0; rep < reps; rep++ {
 		for ng := 0; ng <= 64; ng++ {
 			for bad := 0; bad <= ng; bad++ {
